@@ -228,6 +228,62 @@ example : plainLegs [.key [0x61], .idx (.nat 1)] ∧
     refLookup [.key [0x61], .idx (.nat 1)] (.obj [([0x61], .arr [nullLit, .lit [0x31]])]) = some (.lit [0x31]) := by
   refine ⟨⟨by rfl, trivial⟩, by rfl⟩
 
+/-- **INSERT never touches what exists**: on a path that exists, INSERT returns the document
+unchanged with `changed = false` -/
+theorem insert_existing : ∀ (legs : List Leg) (d v old : JsonVal), plainLegs legs → refLookup legs d = some old →
+    walk legs d v .insert = .ok (d, false) := by
+  intro legs
+  induction legs with
+  | nil => intro d v old _ _; rfl
+  | cons l rest ih =>
+    intro d v old hp hl
+    cases l with
+    | key K =>
+      obtain ⟨hk, hp'⟩ := hp
+      cases d with
+      | lit s => simp [refLookup] at hl
+      | arr xs => simp [refLookup] at hl
+      | obj kvs =>
+        simp only [refLookup] at hl
+        cases hg : objGet kvs K with
+        | none => rw [hg] at hl; simp at hl
+        | some cur =>
+          rw [hg] at hl
+          simp only at hl
+          cases rest with
+          | nil => simp [walk, hg]
+          | cons l2 r2 =>
+            have := ih cur v old hp' hl
+            simp only [walk, hg, Option.getD_some, this]
+            simp
+    | idx spec =>
+      cases spec with
+      | last => exact absurd hp (by simp [plainLegs])
+      | lastMinus n => exact absurd hp (by simp [plainLegs])
+      | nat n =>
+        have hp' : plainLegs rest := hp
+        cases d with
+        | lit s => simp [refLookup] at hl
+        | obj kvs => simp [refLookup] at hl
+        | arr xs =>
+          by_cases hn : n < xs.length
+          · have hpi := parseIndex_nat_inrange n xs.length hn
+            simp only [refLookup, hpi] at hl
+            have hle : ¬ ((xs.length : Int) ≤ (n : Int)) := by omega
+            simp only [Bool.false_or, hle, decide_false, Bool.false_eq_true, if_false, Int.toNat_natCast] at hl
+            have hget : xs[n]? = some xs[n] := by simp [hn]
+            rw [hget] at hl
+            simp only at hl
+            have hgt : ((xs.length : Int) > (n : Int)) := by omega
+            cases rest with
+            | nil => simp [walk, hpi, hgt]
+            | cons l2 r2 =>
+              have := ih xs[n] v old hp' hl
+              simp only [walk, hpi, hgt]
+              simp [hget, this]
+          · have ho := parseIndex_nat_overflow n xs.length hn
+            simp [refLookup, ho] at hl
+
 /-- the refinement of DESIGN.md §6 — stored-text splice = structural edit, on canonical documents.
 **Not proved, and false of the code** at the points listed in design/C17.md (the harness replays a
 witness of each on every run); kept as the statement the correspondence checks. -/
